@@ -88,7 +88,10 @@ func cmdRetention(f hx.Flags, r *hx.Result) {
 	}
 	defer os.RemoveAll(tmp)
 	ages := []int32{1, 2, 24, 168, 720}
-	fileNames := []string{"app.log", "app.log.wf", "svc"}
+	// file names: with dots, a name that is the prefix of its sibling's, without dots, with characters that mean
+	// something to glob / regexp / character-set functions, with digits
+	fileNames := []string{"app.log", "app.log.wf", "svc", "svc[1].log", "a*b?.log", "http2.log", "node02.x", `back\slash.log`, "sp ace(1)+.log"}
+	dirNames := []string{"p", "d[a]", "d*", "d?x", "plus+(1)"}
 	n := 0
 	sigs := map[string]bool{}
 	// populations with a second scan: first scans now, then one common pause in which the "rewritten" files'
@@ -101,7 +104,7 @@ func cmdRetention(f hx.Flags, r *hx.Result) {
 			return err
 		}
 		n++
-		dir := filepath.Join(tmp, fmt.Sprintf("p%d", n))
+		dir := filepath.Join(tmp, fmt.Sprintf("%s%d", dirNames[n%len(dirNames)], n))
 		_ = os.MkdirAll(dir, 0o755)
 		keepDir := false
 		defer func() {
@@ -158,6 +161,18 @@ func cmdRetention(f hx.Flags, r *hx.Result) {
 		}
 		for _, e := range c.Survivors {
 			want[rtName(fileName, e.Name)] = true
+		}
+		// every third population additionally holds a link (made just now) that is named like an own file and points
+		// to an old file outside the directory: the link is young and not a regular file - it stays, and so does its target
+		if n%3 == 1 {
+			target := filepath.Join(tmp, fmt.Sprintf("old-target-%d", n))
+			_ = os.WriteFile(target, []byte("t\n"), 0o644)
+			oldT := cut.Add(-48 * time.Hour)
+			_ = os.Chtimes(target, oldT, oldT)
+			link := fileName + ".20230303030303"
+			if os.Symlink(target, filepath.Join(dir, link)) == nil {
+				want[link] = true
+			}
 		}
 		scan := func(which string) bool {
 			if p := hx.Catch(func() { log.VerifClearExpired(app) }); p != nil {
